@@ -230,6 +230,24 @@ fn main() {
 }
 "#,
             expect: "[0, 0, 0] [0, 0]\n[0, 0, 0]\n",
+        },
+        Caller {
+            what: "const_default() from a caller generic over T and N that states what the inherent method asks for (T: ConstDefault and GenericArray<T, N>: ConstDefault), at run time and in a const",
+            externs: &["const_default"],
+            src: r#"
+use const_default::ConstDefault;
+fn cd<T, N: ArrayLength>() -> GenericArray<T, N> where T: ConstDefault, GenericArray<T, N>: ConstDefault { GenericArray::<T, N>::const_default() }
+struct Holder<T, N: ArrayLength>(GenericArray<T, N>);
+impl<T: ConstDefault, N: ArrayLength> Holder<T, N> where GenericArray<T, N>: ConstDefault { const INIT: GenericArray<T, N> = GenericArray::<T, N>::const_default(); }
+fn main() {
+    let a: GenericArray<u8, U3> = cd();
+    let b: GenericArray<[u16; 2], U2> = cd();
+    const C: GenericArray<u32, U5> = GenericArray::<u32, U5>::const_default();
+    let d = Holder::<i64, U4>::INIT;
+    println!("{:?} {:?} {:?} {:?}", a.as_slice(), b.as_slice(), C.as_slice(), d.as_slice());
+}
+"#,
+            expect: "[0, 0, 0] [[0, 0], [0, 0]] [0, 0, 0, 0, 0] [0, 0, 0, 0]\n",
         }],
         "C02" => vec![
             Caller {
